@@ -688,6 +688,13 @@ impl<'ctxt, R: ImportResolver, C: Cache> VirtualMachine<'ctxt, R, C> {
         let result = loop {
             let Closure { value, mut env } = closure;
             let pos_idx = value.pos_idx();
+            #[cfg(feature = "verif-hooks")]
+            if !crate::verif_hooks::tick() {
+                return Err(Box::new(EvalErrorKind::Other(
+                    crate::verif_hooks::BUDGET_MSG.to_owned(),
+                    pos_idx,
+                )));
+            }
             let has_cont_on_stack = self.stack.is_top_idx() || self.stack.is_top_cont();
 
             closure = match value.content_ref() {
